@@ -202,6 +202,54 @@ def run_source_only(chk, model):
         chk.correspond("MATCHER-source-only", desc, impl, outs)
 
 
+ANDROID_LAYOUT = dict(ml.LOCALES)
+ANDROID_LAYOUT.update({"bs-Cyrl": "b+bs+Cyrl", "ber-Latn": "b+ber+Latn", "be-tarask": "b+be+tarask",
+                       "bg": "bg", "bn-IN": "bn-rIN", "br-Latn-FR": "b+br+Latn+FR", "bb-Bbbb": "b+bb+Bbbb"})
+
+
+def run_android_layout(chk, model):
+    """{android_locale} <-> {locale} layouts with NO bound locale: the locale is detected
+    from the path (qualifier written by hand from the Android documentation)"""
+    rng = chk.rng
+    shapes = [("res/values-{android_locale}/strings.xml", "l10n/{locale}/strings.xml", None),
+              ("app/res/values-{android_locale}/*.xml", "{locale}/app/*.xml", ["strings", "a.b", ""]),
+              ("{android_locale}/**/*.xml", "x/{locale}/**/*.xml", None)]
+    reqs, impl, desc = [], [], []
+    for loc, qual in sorted(ANDROID_LAYOUT.items()):
+        if loc in ("min", "che") and rng.random() < 0.5:
+            continue
+        for pa, pb, fills in shapes:
+            if "**" in pa:
+                f = (rng.choice(["", "d/", "d/e/"]), rng.choice(["s", "q.r"]))
+                ra = pa.replace("**/", f[0]).replace("*", f[1])
+                rb = pb.replace("**/", f[0]).replace("*", f[1])
+            else:
+                f = rng.choice(fills) if fills else ""
+                ra, rb = pa.replace("*", f), pb.replace("*", f)
+            path = ra.replace("{android_locale}", qual)
+            want = rb.replace("{locale}", loc)
+            a, b = (pa, [], None), (pb, [], None)
+            chk.count(("android-layout", a, b, path))
+            got = ml.impl_sub(a, b, path)
+            back = ml.impl_sub(b, a, want)
+            desc += [("sub", a, b, path), ("sub-back", b, a, want)]
+            impl += [got, back]
+            reqs += [(3, ml.side_sx(a) + ml.side_sx(b) + [canon(path)]),
+                     (3, ml.side_sx(b) + ml.side_sx(a) + [canon(want)])]
+            if got != [0, [canon(want)]]:
+                chk.fail("android-layout-mapping-wrong", {"a": a, "b": b, "path": path},
+                         {"got": got if got[0] else (common.l2s(got[1][0]) if got[1] else None),
+                          "expected": want})
+            if back != [0, [canon(path)]]:
+                chk.fail("android-layout-mapping-wrong", {"a": b, "b": a, "path": want},
+                         {"got": back if back[0] else (common.l2s(back[1][0]) if back[1] else None),
+                          "expected": path})
+            oracle_roundtrip(chk, None, a, b, path, tag="android-layout")
+    if model:
+        outs = model.call(reqs)
+        chk.correspond("MATCHER-android-layout", desc, impl, outs)
+
+
 def run(chk, runner_ok):
     rng = chk.rng
     model = Model("C11") if runner_ok else None
@@ -225,6 +273,7 @@ def run(chk, runner_ok):
     fixed.grammar_but_two = True
     run_cases(chk, model, [fixed] + cases, "MATCHER-two-starstar", two=True)
     run_source_only(chk, model)
+    run_android_layout(chk, model)
     ml.run_equality(chk, model, chk.n(600, 6000))
     # ---- stateful: derived matchers created after their source was used ----------
     ml.run_stateful(chk, model, chk.n(500, 5000))
